@@ -31,7 +31,8 @@ CONSTANTS Allocs,       \* allocator ids (integers 1..k)
           GrowModes,    \* subset of BOOLEAN: batch growth (MaxSequenceIncrFrequency huge) on / off (0)
           FloorAhead,   \* GT floors explored: 0 .. counter + FloorAhead
           MaxPend,      \* calls per allocator that may sit between their unlock and their release
-          Fine          \* FALSE: API calls interleave at call granularity only; TRUE: at every action
+          Fine,         \* FALSE: API calls interleave at call granularity only; TRUE: at every action
+          Acts          \* names of the actions that may START a call (behaviour generation can focus on a family)
 
 VARIABLES counter,      \* _sync:seq
           unusedDocs,   \* published notices: <<from, to, kind>>, kind 1 = unusedSeq:<s>, 2 = unusedSeqs:<from>:<to>
@@ -189,25 +190,25 @@ Step(a, n, x) == hist' = Append(hist, [a |-> a, n |-> n, x |-> x])
 Floors == 0..Min2(counter + FloorAhead, MaxCounter - 1)
 InFlight == \E n \in Allocs : pc[n] # Idle0 \/ pend[n] # {}
 More   == Len(hist) < MaxSteps                      \* behaviour length bound
-Start  == More /\ (Fine \/ ~InFlight)               \* a new API call may begin (call granularity unless Fine)
+Start(a) == More /\ (Fine \/ ~InFlight) /\ a \in Acts    \* a new API call may begin (call granularity unless Fine)
 (* a GT call that would need more counter than the bound allows is never started (it could not finish) *)
 BeginFits(n, x) == x + NextBatch(n) <= MaxCounter /\ counter + NextBatch(n) <= MaxCounter
 
-Next(n)        == Start /\ counter + NextIncr(n) <= MaxCounter
+Next(n)        == Start("Next") /\ counter + NextIncr(n) <= MaxCounter
                   /\ ImplNext(n) /\ GhostNext(n, last'[n]) /\ Step("Next", n, 0)
-GTLast(n, x)   == Start /\ counter + NextIncr(n) <= MaxCounter
+GTLast(n, x)   == Start("GTLast") /\ counter + NextIncr(n) <= MaxCounter
                   /\ ImplGTLast(n, x) /\ GhostGTLast(n, x, last'[n]) /\ Step("GTLast", n, x)
-GTBatch(n, x)  == Start /\ Cardinality(pend[n]) < MaxPend
+GTBatch(n, x)  == Start("GTBatch") /\ Cardinality(pend[n]) < MaxPend
                   /\ ImplGTBatch(n, x) /\ GhostGTBatch(n, x, BatchRet(n, x)) /\ Step("GTBatch", n, x)
-GTBegin(n, x)  == Start /\ BeginFits(n, x)
+GTBegin(n, x)  == Start("GTBegin") /\ BeginFits(n, x)
                   /\ ImplGTBegin(n, x) /\ GhostGTBegin(n, BatchNotice(n)) /\ Step("GTBegin", n, x)
 GTFinish(n)    == More /\ pc[n].st = "got" /\ counter + FinishIncr(n) <= MaxCounter
                   /\ (CatchUp(n) /\ CatchRel(n) > 0 => Cardinality(pend[n]) < MaxPend)
                   /\ ImplGTFinish(n) /\ GhostGTFinish(n, pc[n].x, FinishRet(n)) /\ Step("GTFinish", n, 0)
 PendRel(n, p)  == More /\ ImplPendRel(n, p) /\ GhostPendRel(n, p.x, p.ret, <<<<p.from, p.to, 2>>>>) /\ Step("PendRel", n, p.from)
-GiveBack(n, s) == Start /\ s \in held[n] /\ ImplGiveBack(n, s) /\ GhostGiveBack(n, s, <<<<s, s, 1>>>>) /\ Step("GiveBack", n, s)
-IdleRel(n)     == Start /\ last[n] < max[n] /\ ImplIdle(n) /\ GhostIdle(n, IdleNotice(n)) /\ Step("Idle", n, 0)
-Stop(n)        == Start /\ ImplStop(n) /\ GhostStop(n, IdleNotice(n)) /\ Step("Stop", n, 0)
+GiveBack(n, s) == Start("GiveBack") /\ s \in held[n] /\ ImplGiveBack(n, s) /\ GhostGiveBack(n, s, <<<<s, s, 1>>>>) /\ Step("GiveBack", n, s)
+IdleRel(n)     == Start("Idle") /\ last[n] < max[n] /\ ImplIdle(n) /\ GhostIdle(n, IdleNotice(n)) /\ Step("Idle", n, 0)
+Stop(n)        == Start("Stop") /\ ImplStop(n) /\ GhostStop(n, IdleNotice(n)) /\ Step("Stop", n, 0)
 
 Nxt ==
   \E n \in Allocs :
